@@ -161,8 +161,254 @@ def enrich(spec, r):
     return spec
 
 
-def gen_model(r, regime):
-    """-> (spec, model) or raises RuntimeError"""
+def enrich_scenarios(spec, r, regime="calibrated"):
+    """Parameter scenarios on FUNCTION parameters (`ParameterScenario.get_parset` writes a skip window from the first scenario year
+    on, inside which the function / aggregation is not evaluated and the pre-interpolated scenario series is used): linear and
+    stepped, first year on / off the grid / at the first / last time point, one or several populations, dynamic / precompute /
+    output-only / aggregation parameters; sometimes the window is closed again (`skip_function = (lo, hi)`, hi on / off the grid)."""
+    import atomica as at
+
+    start, end, dt = spec["settings"]
+    tv = [float(t) for t in at.ProjectSettings(sim_start=start, sim_end=end, sim_dt=dt).tvec]   # the time vector the model will use (its floats)
+    n = len(tv) - 1
+    cands = [p for p in spec["pars"] if p.get("function") and not p.get("timed") and not p.get("derivative")]
+    if not cands or n < 2:
+        return spec
+    scen = []
+    for g, p in enumerate(r.sample(cands, min(len(cands), r.choice([1, 1, 2])))):
+        own = genfw.pops_of_item(spec, p)   # a parameter exists only in the populations of its type
+        pops = r.sample(own, r.choice([1, len(own)]))
+        interp = r.choice(["linear", "previous"])
+        for pop in pops:
+            k = r.choice([0, 1, 1, 2, 2, 3, n - 1, n, r.randint(0, n)])
+            k = max(0, min(n, k))
+            x = r.random()
+            if x < 0.55:
+                t0 = tv[k]                               # on the grid: exactly the float the time vector holds
+            elif x < 0.85:
+                kk = min(k, n - 1)
+                t0 = tv[kk] + r.choice([0.5, 0.25, 0.013]) * (tv[kk + 1] - tv[kk])   # strictly between two time points
+            else:
+                t0 = start - r.choice([0.5, 1.0])        # before the run: the window covers every index
+            fmt = p["format"]
+            nv = r.choice([1, 2, 2, 3])
+            # later points: on the grid (the exact floats of the time vector) or well inside a step -- never within rounding of a time point
+            # (a steep chord that ends a few ulps from a grid point makes the value there a matter of float rounding of t)
+            later = [tv[j] for j in range(n + 1) if tv[j] > t0] + [tv[j] + 0.5 * (tv[j + 1] - tv[j]) for j in range(n) if tv[j] + 0.5 * (tv[j + 1] - tv[j]) > t0] + [tv[-1] + 1.0, tv[-1] + 2.5]
+            ts = sorted(set([t0] + r.sample(later, min(len(later), nv - 1))))
+            ys = [genfw._val(r, regime if regime != "extreme" else "calibrated", fmt) for _ in ts]
+            e = {"par": p["name"], "pop": pop, "t": ts, "y": ys, "interp": interp, "group": g, "hi": None}
+            if r.random() < 0.35:
+                kh = r.randint(k, n)
+                e["hi"] = tv[kh] if r.random() < 0.6 else tv[kh] + r.choice([0.5, 0.3]) * dt
+                if e["hi"] < t0:
+                    e["hi"] = t0
+            scen.append(e)
+    spec["scenarios"] = scen
+    return spec
+
+
+def enrich_derivative(spec, r, regime="calibrated"):
+    """Derivative parameters ("is derivative" = y): the function is the rate of change, the databook value is the value of index 0.
+    Non-transition accumulators (constant / zero / state-dependent / self-referencing rates, limits that bite, scale factors) that
+    other parameters read — among them link-driving ones — and link-driving parameters that are derivative themselves."""
+    pops = spec["pops"]
+    start = spec["settings"][0]
+    stocks = [c["name"] for c in spec["comps"] if c["kind"] == "normal"]
+    a = r.choice(stocks)
+    has_frac = any(c["name"] == "frac0" for c in spec["characs"])
+    has_aux = any(p["name"] == "aux0" for p in spec["pars"])
+    base = {"timescale": None, "min": None, "max": None, "timed": False, "targetable": False, "databook": True, "derivative": True}
+    yf = spec.setdefault("y_factors", {})
+    made = []
+    # 1. an accumulator
+    if r.random() < 0.8:
+        x = r.random()
+        if x < 0.25:
+            forms = ["0.2", "0", "-0.3", "0*t", "dt", "0.7"]                       # a constant rate
+        elif x < 0.5:
+            forms = ["acc0*0.01 + %s/(alive+1)" % a, "0.1*(1-acc0)", "0.05*(t-%s)" % start, "%s/(alive+1)-0.5" % a, "0.3*acc0"]    # itself, time, the state
+            if has_frac:
+                forms += ["0.5*frac0", "acc0*0.01 + frac0"]
+        else:
+            # the rate reads a DYNAMIC function parameter of the same index (its place in the execution order matters: the rate must be
+            # evaluated after that parameter and from its value of THIS index)
+            src = "aux0" if (has_aux and r.random() < 0.4) else "dsrc0"
+            if src == "dsrc0":
+                spec["pars"].append(dict(base, name="dsrc0", format="number", function=r.choice([f"{a}/(alive+1)", f"2*{a}/({a}+50)", "0.5*frac0+0.1" if has_frac else f"{a}/(alive+2)"]),
+                                         derivative=False, databook=False, value={}))
+            forms = [f"0.5*{src}", f"{src}-acc0", f"acc0*0.01+{src}", f"0.3*{src}-0.1"]
+        f = r.choice(forms)
+        acc = dict(base, name="acc0", format="number", function=f, value={})
+        for pop in pops:
+            v0 = r.choice([0.0, 0.1, 0.5, 1.0, round(r.random(), 3)])
+            acc["value"][pop] = v0 if r.random() < 0.7 else {"t": [start - 1, start + 1], "v": [v0, v0 + 1.0], "assumption": None}   # only the value at the first time point counts
+        if r.random() < 0.5:
+            acc["max"] = r.choice([0.3, 0.6, 1.0, 1.2])    # upper limits that the Euler steps reach (the clipped value is what the next step starts from)
+        if r.random() < 0.4:
+            acc["min"] = r.choice([0, 0.05, 0.2])
+        if r.random() < 0.25:
+            yf["acc0"] = {pop: r.choice([0.5, 1.5, 2.0]) for pop in pops}
+            if r.random() < 0.5:
+                yf["acc0"]["_meta"] = r.choice([0.8, 1.25])
+        spec["pars"].append(acc)
+        made.append("acc0")
+        # readers: link-driving parameters (function of the accumulator), so that it drives transitions
+        plain = [p for p in spec["pars"] if not p.get("timed") and not p.get("derivative") and p["format"] in ("rate", "probability", "number", "duration") and not p.get("function")
+                 and any(t[2] == p["name"] for t in spec["transitions"])]
+        for p in r.sample(plain, min(len(plain), r.choice([1, 1, 2]))):
+            k = genfw._val(r, "calibrated", p["format"])
+            p["function"] = r.choice([f"{k}*acc0", f"{k}*max(acc0,0.1)", f"{k}*(1+acc0)", f"{k}+0.1*acc0"])
+            if r.random() < 0.5:
+                p["databook"] = False
+                p["value"] = {}
+            if p["format"] != "number" and r.random() < 0.5:
+                p["max"] = r.choice([1.0, 2.0])
+            p["min"] = 0 if r.random() < 0.6 else p.get("min")
+        # an output-only reader
+        if r.random() < 0.3:
+            spec["pars"].append(dict(base, name="accout", format="number", function="2*acc0+1", derivative=False, databook=False, value={}))
+    # 2. a link-driving parameter that is a derivative parameter itself
+    if r.random() < 0.5:
+        cand = [p for p in spec["pars"] if not p.get("timed") and not p.get("derivative") and p["format"] in ("rate", "probability", "number") and not p.get("function")
+                and any(t[2] == p["name"] for t in spec["transitions"]) and not any(c["kind"] == "junction" and t[0] == c["name"] for c in spec["comps"] for t in spec["transitions"] if t[2] == p["name"])]
+        if cand:
+            p = r.choice(cand)
+            k = genfw._val(r, "calibrated", p["format"])
+            p["derivative"] = True
+            p["function"] = r.choice([f"{round(0.2 * k, 4)}", f"-{round(0.5 * k, 4)}", f"0.1*({k}-{p['name']})", f"{round(0.1 * k, 4)}*{a}/(alive+1)", "0"])
+            p["databook"] = True
+            for pop in pops:
+                if not isinstance(p["value"].get(pop), (int, float)):
+                    p["value"][pop] = k
+            p["min"] = 0 if r.random() < 0.7 else None
+            if r.random() < 0.4:
+                p["max"] = round(1.5 * k + 0.01, 4)
+            made.append(p["name"])
+    if not yf:
+        spec.pop("y_factors", None)
+    return spec
+
+
+def _rename(obj, mapping, pat=None):
+    """rename identifiers in every string of a JSON-like object (whole words)"""
+    import re
+
+    pat = pat or re.compile(r"\b(" + "|".join(sorted(map(re.escape, mapping), key=len, reverse=True)) + r")\b")
+    if isinstance(obj, str):
+        return pat.sub(lambda mm: mapping[mm.group(1)], obj)
+    if isinstance(obj, list):
+        return [_rename(x, mapping, pat) for x in obj]
+    if isinstance(obj, dict):
+        return {(_rename(k, mapping, pat) if isinstance(k, str) else k): _rename(v, mapping, pat) for k, v in obj.items()}
+    return obj
+
+
+def two_types(spec, r, regime):
+    """A second population type `tb` next to the given model (type `ta`): its own compartments, characteristics, parameters and
+    populations (names suffixed `y`, populations `q*`), and cross-type coupling: an interaction from `ta` to `tb` and aggregation
+    parameters of type `tb` that average / sum a `ta` variable over the `ta` populations (SRC_POP_AVG / SRC_POP_SUM, with and
+    without the interaction, optionally weighted by a `ta` variable) and drive a `tb` transition."""
+    start, end, dt = spec["settings"]
+    f2 = {"start": start, "dt": dt, "nsteps": int(round((end - start) / dt)), "npops": r.choice([1, 2]), "n_norm": r.choice([2, 2, 3]), "junctions": r.choice([0, 0, 1]),
+          "timed": 0, "sinks": r.choice([0, 1]), "functions": r.random() < 0.7, "aggregation": r.random() < 0.3, "transfers": r.random() < 0.3}
+    spec2 = genfw.random_spec(r, regime, f2)
+    names = [c["name"] for c in spec2["comps"]] + [c["name"] for c in spec2["characs"]] + [p["name"] for p in spec2["pars"]] + [i["name"] for i in spec2["interactions"]] + [t["name"] for t in spec2["transfers"]]
+    mapping = {n: n + "y" for n in names}
+    mapping.update({p: "q" + p[1:] for p in spec2["pops"]})
+    spec2 = _rename(spec2, mapping)
+    out = dict(spec)
+    out["pop_types"] = ["ta", "tb"]
+    out["pop_type_of"] = {p: "ta" for p in spec["pops"]}
+    out["pop_type_of"].update({p: "tb" for p in spec2["pops"]})
+    for key in ("comps", "characs", "pars", "transfers"):
+        out[key] = [dict(x, pop_type="ta") for x in spec.get(key, [])] + [dict(x, pop_type="tb") for x in spec2.get(key, [])]
+    out["interactions"] = [dict(x, from_type="ta", to_type="ta") for x in spec.get("interactions", [])] + [dict(x, from_type="tb", to_type="tb") for x in spec2.get("interactions", [])]
+    out["transitions"] = spec["transitions"] + spec2["transitions"]
+    out["pops"] = spec["pops"] + spec2["pops"]
+    # cross-type coupling
+    pa, pb = spec["pops"], spec2["pops"]
+    stocks_a = [c["name"] for c in spec["comps"] if c["kind"] == "normal"]
+    stocks_b = [c["name"] for c in spec2["comps"] if c["kind"] == "normal"]
+    var = r.choice(stocks_a + ["alive"] + [p["name"] for p in spec["pars"] if p["name"] in ("aux0", "acc0")])
+    wv = r.choice(stocks_a + ["alive"])
+    pairs = [[a, b, round(r.random() * 2, 3)] for a in pa for b in pb if r.random() < 0.85]
+    if r.random() < 0.25 and pairs:
+        pairs[0][2] = 0.0
+    forms = [f"SRC_POP_AVG({var})", f"SRC_POP_SUM({var})"]
+    if pairs:
+        out["interactions"].append({"name": "wx", "pairs": pairs, "from_type": "ta", "to_type": "tb"})
+        forms = [f"SRC_POP_AVG({var}, wx)", f"SRC_POP_SUM({var}, wx)", f"SRC_POP_AVG({var}, wx, {wv})", f"SRC_POP_AVG({var}, wx)", f"SRC_POP_AVG({var})"]
+    base = {"format": "number", "timescale": None, "min": None, "max": None, "timed": False, "targetable": False, "databook": False, "value": {}, "pop_type": "tb"}
+    out["pars"].append(dict(base, name="xagg", function=r.choice(forms)))
+    if r.random() < 0.4:
+        out["pars"][-1]["max"] = r.choice([50.0, 500.0])
+    # a tb transition parameter driven by the cross-type aggregate
+    cand = [p for p in out["pars"] if p.get("pop_type") == "tb" and not p.get("timed") and p["format"] in ("rate", "probability") and not p.get("function")
+            and any(t[2] == p["name"] for t in out["transitions"])]
+    if cand:
+        p = r.choice(cand)
+        p["function"] = f"{round(r.random(), 3)}*xagg/(xagg+alivey+1)"
+        p["databook"] = False
+        p["value"] = {}
+        p["min"] = 0
+    else:
+        out["pars"].append(dict(base, name="xout", function="2*xagg"))
+    return out
+
+
+def restrict_to_type(spec, t):
+    """the single-type model made of the items of type `t` of a several-type spec (no cross-type coupling left)"""
+    keep = lambda x: (x.get("pop_type") or spec["pop_types"][0]) == t
+    comps = [c for c in spec["comps"] if keep(c)]
+    cn = {c["name"] for c in comps}
+    pars = [p for p in spec["pars"] if keep(p)]
+    pn = {p["name"] for p in pars}
+    out = {k: v for k, v in spec.items() if k not in ("pop_types", "pop_type_of")}
+    out["comps"] = [{k: v for k, v in c.items() if k != "pop_type"} for c in comps]
+    out["characs"] = [{k: v for k, v in c.items() if k != "pop_type"} for c in spec["characs"] if keep(c)]
+    out["pars"] = [{k: v for k, v in p.items() if k != "pop_type"} for p in pars]
+    out["transitions"] = [tr for tr in spec["transitions"] if tr[0] in cn]
+    out["pops"] = genfw.pops_of_type(spec, t)
+    out["transfers"] = [{k: v for k, v in x.items() if k != "pop_type"} for x in spec.get("transfers", []) if keep(x)]
+    out["interactions"] = [{k: v for k, v in x.items() if k not in ("from_type", "to_type")} for x in spec.get("interactions", [])
+                           if (x.get("from_type") or spec["pop_types"][0]) == t and (x.get("to_type") or spec["pop_types"][0]) == t]
+    if spec.get("y_factors"):
+        out["y_factors"] = {k: v for k, v in spec["y_factors"].items() if k in pn}
+    if spec.get("scenarios"):
+        out["scenarios"] = [e for e in spec["scenarios"] if e["par"] in pn]
+    return out
+
+
+def typed_crash_oracle(spec, exc):
+    """Type separation on the implementation alone: a two-type model whose `ta` half is, by itself, a model the library builds and runs
+    (the `tb` half is an independently generated single-type model plus aggregations over `ta` variables) must build and run too.
+    An exception that is not a documented refusal (InvalidFramework / BadInitialization) while the `ta` half alone runs -> (key, what)"""
+    import atomica as at
+    from atomica.model import BadInitialization
+
+    if not spec.get("pop_types") or isinstance(exc, (at.InvalidFramework, BadInitialization)):
+        return None
+    try:
+        genfw.run(restrict_to_type(spec, "ta"))
+    except Exception:
+        return None
+    if spec.get("scenarios"):
+        # not a matter of types if the scenario is what is refused: the same model without its scenarios must fail as well
+        try:
+            genfw.run({k: v for k, v in spec.items() if k != "scenarios"})
+            return None
+        except (at.InvalidFramework, BadInitialization):
+            return None
+        except Exception as e2:
+            exc = e2
+    return ({"oracle": "two-type-model-crashes"}, f"a model with two population types could not be built/run ({type(exc).__name__}: {str(exc)[:200]}) although its first type alone runs; "
+            "parameters, compartments and characteristics must exist only in the populations of their type")
+
+
+def gen_model(r, regime, on_reject=None, force=()):
+    """-> (spec, model) or raises RuntimeError; `on_reject(spec, exception)` sees every rejected candidate;
+    `force`: features every model must have ("scenarios", "derivative", "types")"""
     import atomica as at
     from atomica.model import BadInitialization
 
@@ -170,26 +416,40 @@ def gen_model(r, regime):
     for _ in range(30):
         spec = genfw.random_spec(r, regime, gen_features(r))
         spec = enrich(spec, r)
+        if r.random() < 0.4 or "derivative" in force:
+            spec = enrich_derivative(spec, r, regime)
+        if r.random() < 0.25 or "types" in force:
+            spec = two_types(spec, r, regime)
+        if r.random() < 0.4 or "scenarios" in force:
+            spec = enrich_scenarios(spec, r, regime)
+        if ("scenarios" in force and not spec.get("scenarios")) or ("derivative" in force and not any(p.get("derivative") for p in spec["pars"])):
+            continue
         try:
             m = genfw.run(spec, capture_preflush=True)
             return spec, m
         except (at.InvalidFramework, BadInitialization, AssertionError, at.ModelError) as e:
             last = e
+            if on_reject is not None:
+                on_reject(spec, e)
         except Exception as e:  # e.g. circular dependency created by enrich: try again
             last = e
+            if on_reject is not None:
+                on_reject(spec, e)
     raise RuntimeError(f"closed_corr generator: no acceptable model in 30 tries; last {type(last).__name__}: {str(last)[:120]}")
 
 
 # ----------------------------------------------------------------------------------------------
 # extraction: built Model + ParameterSet -> closed-loop spec tokens
 # ----------------------------------------------------------------------------------------------
-def _ts_tokens(ts):
-    """<assumption|nan> <n> t1 v1 ..."""
+def _ts_tokens(ts, snap=None):
+    """<assumption|nan> <n> t1 v1 ...   (`snap`: a data year that IS a point of the float time vector is sent as the exact grid point of
+    that index -- a scenario parset holds one point per simulation time -- any other year as the exact float)"""
     asm = ts.assumption
     a = "nan" if (asm is None or (isinstance(asm, float) and math.isnan(asm))) else q(float(asm))
     out = [a, str(len(ts.t))]
     for t, v in zip(ts.t, ts.vals):
-        out += [q(float(t)), q(float(v))]
+        tt = float(t)
+        out += [q(snap(tt) if (snap is not None and math.isfinite(tt)) else tt), q(float(v))]
     return out
 
 
@@ -210,6 +470,41 @@ def _lim(x, inf_sign):
     return q(x)
 
 
+def fr(x):
+    return Fraction(*float(x).as_integer_ratio())
+
+
+def snapper(m):
+    """A year that IS a point of the float time vector (`t == m.t[k]`) means "index k": it is sent to the model as the exact grid
+    point `t[0] + k*dt` (the model's time of index k), any other year as the exact value of the float."""
+    grid = {float(t): k for k, t in enumerate(m.t)}
+    t0, dt = fr(m.t[0]), fr(m.dt)
+
+    def snap(t):
+        t = float(t)
+        return t0 + grid[t] * dt if t in grid else fr(t)
+
+    return snap
+
+
+def window_ambiguous(m):
+    """the float time vector and the exact grid `start + i*dt` fall on different sides of a skip-window bound: no claim"""
+    t0, dt = fr(m.t[0]), fr(m.dt)
+    snap = snapper(m)
+    bounds = set()
+    for pop in m.pops:
+        for p in pop.pars:
+            if p.skip_function:
+                bounds.update(float(b) for b in p.skip_function if math.isfinite(float(b)))
+    for b in bounds:
+        be = snap(b)
+        for i in range(len(m.t)):
+            tf, te = float(m.t[i]), t0 + i * dt
+            if (tf < b) != (te < be) or (tf <= b) != (te <= be):
+                return True
+    return False
+
+
 def extract(m, parset=None):
     """-> dict(net, tokens(str), pars(list of Parameter objects in model order), link_par_count)"""
     from atomica import model as M
@@ -218,8 +513,6 @@ def extract(m, parset=None):
     parset = parset or m._verif_parset
     if m.progset is not None and m.program_instructions is not None:
         raise Unsupported("programs")
-    if len({p.type for p in m.pops}) > 1:
-        raise Unsupported("several population types")
     net = genfw.extract_net(m)
     comps = net["comps"]
     links = net["links"]
@@ -255,6 +548,7 @@ def extract(m, parset=None):
 
     if sum(net["nrows"]) > 40 or max(net["nrows"]) > MAX_ROWS * 4:
         raise Unsupported("too many keyring rows for exact closed-loop arithmetic")
+    snap = snapper(m)
 
     toks = [genfw.net_tokens(net), q(float(m.t[0])), q(float(m.dt)), str(len(m.t))]
     # ---- characteristics
@@ -289,10 +583,10 @@ def extract(m, parset=None):
     # ---- parameters
     fw_pars = m.framework.pars
     for p in pars:
-        if p.derivative:
-            raise Unsupported("derivative parameter")
-        if p.skip_function:
-            raise Unsupported("skip_function")
+        if p.derivative and (p.skip_function or p.pop_aggregation or not p.fcn_str):
+            # inside a skip window `Parameter.update` returns before `_dx` is refreshed (the Euler step goes on with a stale rate);
+            # an aggregation never sets `_dx`: not modelled (wfSpec refuses both)
+            raise Unsupported("derivative parameter with a skip window / aggregation / no function")
         pop = p.pop.name
         cascade = parset.pars[p.name] if p.name in parset.pars else None
         ts = None
@@ -313,7 +607,7 @@ def extract(m, parset=None):
                 raise Unsupported(f"parameter {p.name} has no source of values")
             ts = found
         if ts is not None:
-            toks += ["1"] + _ts_tokens(ts)
+            toks += ["1"] + _ts_tokens(ts, snap)
         else:
             toks.append("0")
         toks.append(q(float(p.scale_factor)))
@@ -339,7 +633,7 @@ def extract(m, parset=None):
                     owner = parset.interactions[inter].get(frm) if frm in parset.interactions[inter] else None
                     if owner is not None and to in owner.pops:
                         sc = Fraction(*float(owner.y_factor[to]).as_integer_ratio()) * Fraction(*float(owner.meta_y_factor).as_integer_ratio())
-                        toks += ["1"] + _ts_tokens(owner.ts[to]) + [q(sc)]
+                        toks += ["1"] + _ts_tokens(owner.ts[to], snap) + [q(sc)]
                     else:
                         toks += ["1"] + _const_ts(0.0) + ["1"]
                 toks += ref(sv)
@@ -366,6 +660,15 @@ def extract(m, parset=None):
             out = []
             ser(tree.body, out)
             toks += out
+        # skip window of a parameter scenario (closed on both sides; +inf = open end)
+        if p.skip_function:
+            lo, hi = float(p.skip_function[0]), float(p.skip_function[1])
+            if not math.isfinite(lo) or math.isnan(hi) or hi == -math.inf:
+                raise Unsupported("skip_function with a non-finite start")
+            toks += ["1", q(snap(lo)), "-" if hi == math.inf else q(snap(hi))]
+        else:
+            toks.append("0")
+        toks.append("1" if p.derivative else "0")
     # ---- execution order
     porder = []
     for name in m._exec_order["all_pars"]:
@@ -448,7 +751,7 @@ def compare(m, net, entries, stop, upto=None):
 
 def used_par(ex, i):
     p = ex["pars"][i]
-    return i < ex["n_link"] or p._is_dynamic or p._precompute or (p.fcn_str is None)
+    return i < ex["n_link"] or p._is_dynamic or p._precompute or (p.fcn_str is None) or bool(p.skip_function)
 
 
 def compare_pars(m, ex, entries, upto=None):
@@ -654,6 +957,63 @@ def features_of(m, ex, spec):
             tags.add("par.several_links")
         if p.fcn_str is None and p.vals is not None and len(set(np.asarray(p.vals, dtype=float).tolist())) > 1:
             tags.add("data.timevarying")
+    if len({pop.type for pop in m.pops}) > 1:
+        tags.add("types.two")
+        tof = {pop.name: pop.type for pop in m.pops}
+        for p in ex["pars"]:
+            if p.pop_aggregation:
+                src = m._vars_by_pop[p.pop_aggregation[1]]
+                if any(tof[v.pop.name] != tof[p.pop.name] for v in src):
+                    tags.add("types.cross_aggregation" + (".interaction" if len(p.pop_aggregation) > 2 else "") + (".weighted" if len(p.pop_aggregation) > 3 else ""))
+                    tags.add("types.cross." + p.pop_aggregation[0])
+                    if any(q_.links and any(v is p for vs in q_.deps.values() for v in vs) for q_ in ex["pars"]):
+                        tags.add("types.cross_aggregation.drives_link")
+        if len({len([1 for pop in m.pops if pop.type == t]) for t in set(tof.values())}) > 1:
+            tags.add("types.different_population_counts")
+    for p in ex["pars"]:
+        if p.derivative:
+            tags.add("deriv.any")
+            if p.links:
+                tags.add("deriv.drives_link")
+            if any(v is p for vs in p.deps.values() for v in vs):
+                tags.add("deriv.self_reference")
+            if any(not isinstance(v, M.Parameter) for vs in p.deps.values() for v in vs):
+                tags.add("deriv.state_dependent")
+            try:
+                c = float(ast.literal_eval(p.fcn_str.strip()))
+                tags.add("deriv.zero_rate" if c == 0 else "deriv.constant_rate")
+            except Exception:
+                pass
+            if p.limits is not None and p.vals is not None and any(float(x) in (float(p.limits[0]), float(p.limits[1])) for x in p.vals[1:]):
+                tags.add("deriv.limit_reached")
+            if p.scale_factor != 1.0:
+                tags.add("deriv.scaled")
+            readers = [q_ for q_ in ex["pars"] if q_ is not p and any(v is p for vs in q_.deps.values() for v in vs)]
+            if any(q_.links for q_ in readers):
+                tags.add("deriv.read_by_link_parameter")
+            if any(q_.fcn_str and not q_._is_dynamic and not q_._precompute for q_ in readers):
+                tags.add("deriv.read_by_output_only")
+            if p.vals is not None and len(set(np.asarray(p.vals, dtype=float).tolist())) > 1:
+                tags.add("deriv.moves")
+    if spec.get("scenarios"):
+        grid = {float(t) for t in m.t}
+        by_group = {}
+        for e in spec["scenarios"]:
+            t0 = float(min(e["t"]))
+            tags.add("scen.first_year." + ("before_run" if t0 < float(m.t[0]) else "first_point" if t0 == float(m.t[0]) else "last_point" if t0 == float(m.t[-1]) else "on_grid" if t0 in grid else "off_grid"))
+            tags.add("scen.interp." + e.get("interp", "linear"))
+            if e.get("hi") is not None:
+                tags.add("scen.window_closed." + ("on_grid" if float(e["hi"]) in grid else "off_grid"))
+            by_group.setdefault(e.get("group"), set()).add(e["pop"])
+        if any(len(v) > 1 for v in by_group.values()):
+            tags.add("scen.several_pops")
+        for p in ex["pars"]:
+            if p.skip_function:
+                tags.add("scen.par." + ("aggregation" if p.pop_aggregation else "dynamic" if p._is_dynamic else "precompute" if p._precompute else "output_only"))
+                if p.links:
+                    tags.add("scen.par.drives_link")
+                if m._verif_parset.pars[p.name].has_values(p.pop.name) and any(q_.name == p.name and q_.get("databook") for q_ in [type("P", (), {"name": x["name"], "get": x.get})() for x in spec["pars"]]):
+                    tags.add("scen.par.had_databook_values")
     for grp, tag in ((spec.get("interactions") or [], "interaction.timevarying"), (spec.get("transfers") or [], "transfer.timevarying")):
         if any(isinstance(pr[2], dict) for g in grp for pr in g["pairs"]):
             tags.add(tag)
@@ -678,11 +1038,15 @@ def check_one(ctx, prop, spec, m, key):
         return "unsupported"
     net = ex["net"]
     net["n_link"] = ex["n_link"]
+    if window_ambiguous(m):
+        ctx.ambiguous += 1
+        ctx.count("closed.ambiguous.grid_vs_window")
+        return "ok"
     rep = core.drive([csim_req(ex["tokens"])], timeout=900)[0]
     tags = features_of(m, ex, spec)
     for tg in tags:
         ctx.count(tg)
-    ctx.case(key, nontrivial=bool(tags & {"fn.dynamic", "fn.of_parameter", "fn.of_characteristic", "agg.SRC_POP_AVG", "agg.TGT_POP_AVG", "agg.SRC_POP_SUM", "agg.TGT_POP_SUM", "has.transfer", "data.timevarying", "data.limits", "par.scaled"} or any(t.startswith("agg.") for t in tags)),
+    ctx.case(key, nontrivial=any(t.startswith(("scen.", "deriv.", "types.cross")) for t in tags) or bool(tags & {"fn.dynamic", "fn.of_parameter", "fn.of_characteristic", "agg.SRC_POP_AVG", "agg.TGT_POP_AVG", "agg.SRC_POP_SUM", "agg.TGT_POP_SUM", "has.transfer", "data.timevarying", "data.limits", "par.scaled"} or any(t.startswith("agg.") for t in tags)),
              sample={"case": key, "kinds": "".join(net["kinds"]), "n_links": len(net["links"]), "n_pars": len(ex["pars"]), "npts": len(m.t), "tags": sorted(tags)})
     ctx.hyp_checked += 1
     if rep.startswith("err"):
@@ -761,6 +1125,8 @@ def check_one(ctx, prop, spec, m, key):
         ctx.notes.append("agg_corr: " + repr(e)[:200])
     for v in par_oracle(m, ex):
         ctx.violation({"api": "Model.update_pars", **v[0]}, v[1], {"spec": spec, "case": key, "how": "vlib.genfw.run(spec); vlib.closed_corr.par_oracle"})
+    for v in prefix_oracle(spec, m):
+        ctx.violation({"api": "ParameterScenario.get_parset", **v[0]}, v[1], {"spec": spec, "case": key, "how": "vlib.genfw.run(spec) with and without spec['scenarios']; vlib.closed_corr.prefix_oracle"})
     for (_p, okey, owhat) in mine:
         ctx.violation({"api": "Model.process", **okey}, owhat, {"spec": spec, "case": key, "how": "vlib.genfw.run(spec) then vlib.engine_corr.oracles"})
     if len(ctx.violations) > n_before:
@@ -781,7 +1147,7 @@ def par_oracle(m, ex):
         if p.vals is None:
             continue
         v = np.asarray(p.vals, dtype=float)
-        used = i < ex["n_link"] or p._is_dynamic or p._precompute
+        used = i < ex["n_link"] or p._is_dynamic or p._precompute or bool(p.skip_function)
         if not used:
             continue
         if p.limits is not None and np.isfinite(v).all():
@@ -789,8 +1155,29 @@ def par_oracle(m, ex):
                 t = int(np.argmax((v < p.limits[0] - 1e-12) | (v > p.limits[1] + 1e-12)))
                 out.append(({"oracle": "limits"}, f"parameter {p.id} = {v[t]!r} at index {t} is outside its limits {p.limits}"))
                 continue
-        if p.fcn_str and not p.pop_aggregation and p._fcn is not None and not p.derivative and not p.skip_function:
+        if p.skip_function and p.fcn_str:
+            # inside the window the function / aggregation is not evaluated: the (pre-interpolated) scenario series stands
+            parset = m._verif_parset
+            cp = parset.pars[p.name]
+            e = cp.interpolate(np.asarray(m.t), p.pop.name) * cp.y_factor[p.pop.name] * cp.meta_y_factor
+            if p.limits is not None:
+                e = np.clip(e, p.limits[0], p.limits[1])
+            tt = np.asarray(m.t, dtype=float)
+            inside = (tt >= p.skip_function[0]) & (tt <= p.skip_function[1])
+            bad = inside & ~(np.isfinite(e) & np.isfinite(v) & (np.abs(e - v) <= 1e-9 * np.maximum(1.0, np.abs(e))))
+            if bad.any():
+                t = int(np.argmax(bad))
+                out.append(({"oracle": "skip-window-value"}, f"parameter {p.id} at index {t} (t={tt[t]!r}) lies inside its skip window {tuple(p.skip_function)} but holds {v[t]!r} instead of the scenario value clip(interp*y_factor*meta) = {e[t]!r} ({p.fcn_str})"))
+                continue
+        if p.derivative and p.fcn_str and p._fcn is not None:
+            bad = derivative_oracle(m, p, v)
+            if bad:
+                out.append(bad)
+            continue
+        if p.fcn_str and not p.pop_aggregation and p._fcn is not None and not p.derivative:
             for ti in range(T):
+                if p.skip_function and p.skip_function[0] <= float(m.t[ti]) <= p.skip_function[1]:
+                    continue
                 dep_vals = {}
                 ok = True
                 for name, deps in p.deps.items():
@@ -833,6 +1220,104 @@ def par_oracle(m, ex):
     return out
 
 
+def _dep_vals(m, p, ti):
+    """the values `Parameter.update(ti)` hands to the parsed function, recomputed from the implementation's own arrays; None when a
+    link flow is read"""
+    from atomica import model as M
+
+    dep_vals = {}
+    for name, deps in p.deps.items():
+        s = 0.0
+        for dep in deps:
+            if isinstance(dep, M.Link):
+                return None
+            elif isinstance(dep, M.Characteristic):
+                s += _charac_value(dep, ti)
+            else:
+                s += float(dep.vals[ti])
+        dep_vals[name] = s
+    dep_vals["t"] = m.t[ti]
+    dep_vals["dt"] = m.dt
+    return dep_vals
+
+
+def derivative_oracle(m, p, v):
+    """A derivative parameter follows the documented recurrence: the value of index 0 is the (scaled, clipped) databook value and
+    value[i+1] = clip(value[i] + scale * f(values of index i) * dt); a literal rate c without limits gives the straight line
+    value[k] = v0 + k*c*scale*dt, a zero rate a constant (closed_derivative_linear / _constant evaluated on the implementation)."""
+    T = len(m.t)
+    lo, hi = (p.limits if p.limits is not None else (-math.inf, math.inf))
+    clip = lambda e: min(max(e, lo), hi)
+    parset = m._verif_parset
+    cp = parset.pars[p.name]
+    if cp.has_values(p.pop.name):
+        e0 = clip(float(cp.interpolate(np.asarray(m.t[:1]), p.pop.name)[0] * cp.y_factor[p.pop.name] * cp.meta_y_factor))
+        if math.isfinite(e0) and not (math.isfinite(v[0]) and abs(e0 - v[0]) <= 1e-9 * max(1.0, abs(e0))):
+            return ({"oracle": "derivative-initial"}, f"derivative parameter {p.id} starts at {v[0]!r}, but clip(databook value at the first time point * y_factor * meta) = {e0!r}")
+    for ti in range(T - 1):
+        dv = _dep_vals(m, p, ti)
+        if dv is None:
+            return None
+        try:
+            with np.errstate(all="ignore"):
+                f = float(p.scale_factor * p._fcn(**dv))
+        except Exception:
+            return None
+        e = clip(float(v[ti]) + f * m.dt)
+        if math.isfinite(e) and math.isfinite(v[ti + 1]) and abs(e - v[ti + 1]) > 1e-9 * max(1.0, abs(e), abs(f * m.dt)):
+            return ({"oracle": "derivative-step"}, f"derivative parameter {p.id}: value[{ti + 1}] = {v[ti + 1]!r}, but clip(value[{ti}] + scale*f(values of index {ti})*dt) = clip({v[ti]!r} + {f!r}*{m.dt!r}) = {e!r} ({p.fcn_str})")
+    try:
+        c = float(ast.literal_eval(p.fcn_str.strip()))
+    except Exception:
+        return None
+    if p.limits is None and math.isfinite(v[0]):
+        for k in range(T):
+            e = float(v[0]) + k * c * p.scale_factor * m.dt
+            if not (math.isfinite(v[k]) and abs(e - v[k]) <= 1e-9 * max(1.0, abs(e))):
+                return ({"oracle": "derivative-linear"}, f"derivative parameter {p.id} with the constant rate {c!r} and no limits: value[{k}] = {v[k]!r}, expected v0 + k*c*scale*dt = {e!r}")
+    return None
+
+
+def scenario_start(spec):
+    """the first year at which any scenario of the spec may act"""
+    return min(min(float(t) for t in e["t"]) for e in spec["scenarios"])
+
+
+def prefix_oracle(spec, m):
+    """C09 on the implementation alone: the run WITHOUT the scenarios (same spec, "scenarios" removed) has, at every time point strictly
+    before the first scenario year, exactly the stocks, flows and parameter values of the run with them.  -> list of (key, what)"""
+    if not spec.get("scenarios"):
+        return []
+    base_spec = {k: v for k, v in spec.items() if k != "scenarios"}
+    try:
+        mb = genfw.run(base_spec, capture_preflush=True)
+    except Exception as e:  # the baseline itself is refused: nothing to compare with
+        return []
+    y = scenario_start(spec)
+    netb = genfw.extract_net(mb)
+    nets = genfw.extract_net(m)
+    out = []
+    for ti in range(len(m.t)):
+        if not float(m.t[ti]) < y:
+            break
+        a = genfw.snapshot_stock(m, ti) + genfw.snapshot_flows(m, nets, ti)
+        b = genfw.snapshot_stock(mb, ti) + genfw.snapshot_flows(mb, netb, ti)
+        for k, (ra, rb) in enumerate(zip(a, b)):
+            for va, vb in zip(ra, rb):
+                if not (va == vb or (math.isnan(va) and math.isnan(vb)) or abs(va - vb) <= 1e-12 * max(1.0, abs(va), abs(vb))):
+                    out.append(({"oracle": "no_effect_before_scenario"}, f"stock/flow #{k} at index {ti} (t={float(m.t[ti])!r} < first scenario year {y!r}): {va!r} with the scenario, {vb!r} without"))
+                    return out
+        for pop, popb in zip(m.pops, mb.pops):
+            for p, pb in zip(pop.pars, popb.pars):
+                if p.vals is None or pb.vals is None:
+                    continue
+                va, vb = float(p.vals[ti]), float(pb.vals[ti])
+                if not (va == vb or (math.isnan(va) and math.isnan(vb)) or abs(va - vb) <= 1e-12 * max(1.0, abs(va), abs(vb))):
+                    out.append(({"oracle": "no_effect_before_scenario"}, f"parameter {p.id} at index {ti} (t={float(m.t[ti])!r} < first scenario year {y!r}): {va!r} with the scenario, {vb!r} without"))
+                    return out
+    return out
+
+
 def _charac_value(c, ti, comp_value=None):
     """`Characteristic.update` recomputed from compartment sizes (`comp_value(comp)`, default: the implementation's arrays);
     also accepts a compartment"""
@@ -856,25 +1341,34 @@ def _charac_value(c, ti, comp_value=None):
     return s
 
 
-def _worker(sub, n, prop=None, regimes=None):
+def _worker(sub, n, prop=None, regimes=None, force=()):
     import logging
     import atomica
     atomica.logger.setLevel(logging.ERROR)
-    _run(sub, prop, n, regimes)
+    _run(sub, prop, n, regimes, force)
 
 
-def _run(ctx, prop, n_models, regimes):
+def _run(ctx, prop, n_models, regimes, force=()):
     for i in range(n_models):
         regime = regimes[i % len(regimes)]
         sub_seed = ctx.rng.randrange(1 << 30)
         rr = _random.Random(sub_seed)
+
+        def on_reject(spec_, exc, _seed=sub_seed, _regime=regime):
+            ctx.count("closed.gen_rejected." + type(exc).__name__)
+            v = typed_crash_oracle(spec_, exc)
+            if v:
+                ctx.violation({"api": "Model.build", **v[0]}, v[1], {"spec": spec_, "case": {"closed": True, "sub_seed": _seed, "regime": _regime}, "how": "vlib.genfw.run(spec)"})
+
         try:
-            spec, m = gen_model(rr, regime)
+            spec, m = gen_model(rr, regime, on_reject, force)
         except RuntimeError as e:
             ctx.notes.append(str(e)[:200])
             ctx.count("closed.gen_failed")
             continue
         key = {"closed": True, "sub_seed": sub_seed, "regime": regime}
+        if force:
+            key["force"] = list(force)
         ctx.count("closed.regime." + regime)
         try:
             check_one(ctx, prop, spec, m, key)
@@ -882,29 +1376,48 @@ def _run(ctx, prop, n_models, regimes):
             ctx.brk("correspondence", f"driver failed on a closed-loop request: {str(e)[:200]}", stage="closed-driver", case=key, spec=spec)
 
 
-def run_closed(ctx, prop, n_models, regimes=("calibrated", "boundary", "calibrated", "extreme"), workers=None):
+def run_closed(ctx, prop, n_models, regimes=("calibrated", "boundary", "calibrated", "extreme"), workers=None, force=()):
     """Generate `n_models` small models and compare whole trajectories with the closed-loop Lean model."""
     if workers is None:
         workers = 12 if n_models >= 48 else 1
     if workers > 1:
-        core.parallel(ctx, _worker, n_models, workers, prop=prop, regimes=regimes)
+        core.parallel(ctx, _worker, n_models, workers, prop=prop, regimes=regimes, force=tuple(force))
     else:
-        _run(ctx, prop, n_models, regimes)
+        _run(ctx, prop, n_models, regimes, tuple(force))
 
 
 def replay_case(case, verbose=True):
     """Rebuild the model of a recorded case key ({'sub_seed', 'regime'}) and print the comparison."""
     rr = _random.Random(case["sub_seed"])
-    spec, m = gen_model(rr, case["regime"])
+    crashed = []
+
+    def on_reject(spec_, exc):
+        v = typed_crash_oracle(spec_, exc)
+        if v:
+            crashed.append(v[1])
+
+    spec, m = gen_model(rr, case["regime"], on_reject, tuple(case.get("force") or ()))
+    if crashed:
+        print("a candidate of this case was refused:", crashed[0])
+        return 1
     ex = extract(m)
     net = ex["net"]
     net["n_link"] = ex["n_link"]
+    if window_ambiguous(m):
+        print("float grid and exact grid fall on different sides of a skip-window bound: no claim")
+        return 0
     rep = core.drive([csim_req(ex["tokens"])], timeout=900)[0]
     if rep.startswith("err"):
         print("driver:", rep, core.drive(["cwf " + ex["tokens"]])[0])
         return 1
     entries, stop = parse_reply(net, rep)
     diffs = compare(m, net, entries, stop) or compare_pars(m, ex, entries)
+    if not diffs:
+        # the direct oracles of the case as well (a violation may have been found by an oracle while a neighbour disagreed)
+        bad = par_oracle(m, ex) + prefix_oracle(spec, m)
+        if bad:
+            print("direct oracle fails:", bad[0][1])
+            return 1
     amb = ambiguity(m, ex, entries, diffs[0]["t"], focus=[diffs[0]["par"]] if diffs[0]["kind"] == "par" else None) if diffs else None
     if amb:
         print("first disagreement is within rounding of a discontinuity of the rule (ambiguous):", amb, diffs[0]["what"])
@@ -925,14 +1438,19 @@ def closed_selfcheck(ctx, n=3):
        (b) `csim` vs the L1 path (eflush/estep chained, fed with the implementation's parameter values): a difference there
            is in the parameter layer, not in the flow layer (both run the same `Engine.step`)."""
     done_ref = done_l1 = 0
-    for i in range(40):
-        if done_ref >= n and done_l1 >= n:
+    seen = set()
+    for i in range(60):
+        if done_ref >= n and done_l1 >= n and seen >= {"derivative", "skip"}:
             break
         rr = _random.Random(ctx.seed * 104729 + i)
         feats = {"n_norm": 2, "npops": 1, "nsteps": 2, "junctions": rr.choice([0, 1]), "timed": 0, "sinks": 1, "functions": True, "aggregation": False, "transfers": False, "source": False, "dt": 0.5}
         try:
             spec = genfw.random_spec(rr, "calibrated", feats)
             spec = enrich(spec, rr)
+            if i % 2 == 1:
+                # the extended paths of the memoised driver loop (pair fold with the Euler steps, skip windows) against `simulate` verbatim
+                spec = enrich_derivative(spec, rr)
+                spec = enrich_scenarios(spec, rr)
             m = genfw.run(spec, capture_preflush=True)
             ex = extract(m)
         except Exception:
@@ -945,7 +1463,9 @@ def closed_selfcheck(ctx, n=3):
         if not a.startswith("ok"):
             continue
         entries, stop = parse_reply(net, a)
-        if done_ref < n and stop is None:
+        has = {"derivative"} if any(p.derivative for p in ex["pars"]) else set()
+        has |= {"skip"} if any(p.skip_function for p in ex["pars"]) else set()
+        if (done_ref < n or (has - seen)) and stop is None:
             # reference path on the first two indices only (exponential without memoisation)
             toks = ex["tokens"].split(" ")
             short = _with_npts(ex, net, 2)
@@ -955,6 +1475,11 @@ def closed_selfcheck(ctx, n=3):
             if strip(a2) != b2:
                 ctx.brk("correspondence", "driver self-check: memoised csim differs from Closed.simulate (csimref)", stage="closed-driver")
             done_ref += 1
+            seen |= has
+            if any(p.derivative for p in ex["pars"]):
+                ctx.count("closed.selfcheck_ref.derivative")
+            if any(p.skip_function for p in ex["pars"]):
+                ctx.count("closed.selfcheck_ref.skip_window")
         if done_l1 < n:
             l1, l1stop = l1_trajectory(m, net)
             k = same_traj(entries, l1)
